@@ -103,11 +103,35 @@ def _stmt_list_of(st: ast.AST | None):
     return None
 
 
+def _notifying_helpers(ctx: Ctx, fi: FuncInfo) -> set[str]:
+    """methods of fi's class (MRO) that do nothing but notify on every normal path (`self._notify()` style helpers
+    extracted from `if self.on_update is not None: self.on_update(self)`)."""
+    out: set[str] = set()
+    if fi.cls is None:
+        return out
+    for k in ctx.repo.mro(fi.cls):
+        for name, m in getattr(k, "methods", {}).items():
+            if not isinstance(m, FuncInfo) or m is fi or "." in name:
+                continue
+            direct = _notify_calls(m.node)
+            if not direct:
+                continue
+            c = cfg_of(m)
+            nn = [x for x in (c.node_of(d) for d in direct) if x is not None]
+            pr = _pruned_edges(m, c, [])
+            if c.exit.id not in c.reach(avoid_nodes=nn, avoid_edges=pr):
+                out.add(name)
+    return out
+
+
 def notifies_after(ctx: Ctx, fi: FuncInfo, mutation_asts: list[ast.AST]) -> tuple[bool, str]:
     """every path from each mutation to an exit passes a notification (modulo pruned edges)."""
     cfg = cfg_of(fi)
     mnodes = [n for n in (cfg.node_of(a) for a in mutation_asts) if n is not None]
-    notes = [cfg.node_of(c) for c in _notify_calls(fi.node)]
+    helpers = _notifying_helpers(ctx, fi)
+    selfname = fi.params[0] if fi.params else "self"
+    helper_calls = [c for c in astq.calls(fi.node, nested=False) if isinstance(c.func, ast.Attribute) and isinstance(c.func.value, ast.Name) and c.func.value.id == selfname and c.func.attr in helpers]
+    notes = [cfg.node_of(c) for c in _notify_calls(fi.node) + helper_calls]
     notes = [n for n in notes if n is not None]
     if not notes:
         return False, "no notification call in the method"
